@@ -24,7 +24,12 @@ import (
 
 const pg = 0x1000
 
-func writeELF(path string, typ elf.Type, phs []elf.Prog64) error {
+type secSpec struct {
+	name            string
+	addr, off, size uint64
+}
+
+func writeELF(path string, typ elf.Type, phs []elf.Prog64, secs ...secSpec) error {
 	var b bytes.Buffer
 	h := elf.Header64{
 		Ident:     [16]byte{0x7f, 'E', 'L', 'F', 2, 1, 1},
@@ -37,10 +42,33 @@ func writeELF(path string, typ elf.Type, phs []elf.Prog64) error {
 		Phnum:     uint16(len(phs)),
 		Shentsize: 64,
 	}
+	// optional section table (null section, the given executable sections, .shstrtab), stored right
+	// behind the program headers
+	var strtab []byte
+	var shdrs []elf.Section64
+	if len(secs) > 0 {
+		strtab = []byte{0}
+		shdrs = append(shdrs, elf.Section64{})
+		for _, sc := range secs {
+			shdrs = append(shdrs, elf.Section64{Name: uint32(len(strtab)), Type: uint32(elf.SHT_PROGBITS), Flags: uint64(elf.SHF_ALLOC | elf.SHF_EXECINSTR), Addr: sc.addr, Off: sc.off, Size: sc.size, Addralign: 16})
+			strtab = append(append(strtab, sc.name...), 0)
+		}
+		shdrs = append(shdrs, elf.Section64{Name: uint32(len(strtab)), Type: uint32(elf.SHT_STRTAB), Addralign: 1})
+		strtab = append(append(strtab, ".shstrtab"...), 0)
+		h.Shoff = 64 + 56*uint64(len(phs))
+		h.Shnum = uint16(len(shdrs))
+		h.Shstrndx = uint16(len(shdrs) - 1)
+		shdrs[len(shdrs)-1].Off = h.Shoff + 64*uint64(len(shdrs))
+		shdrs[len(shdrs)-1].Size = uint64(len(strtab))
+	}
 	binary.Write(&b, binary.LittleEndian, &h)
 	for _, p := range phs {
 		binary.Write(&b, binary.LittleEndian, &p)
 	}
+	for _, sh := range shdrs {
+		binary.Write(&b, binary.LittleEndian, &sh)
+	}
+	b.Write(strtab)
 	return os.WriteFile(path, b.Bytes(), 0o644)
 }
 
@@ -50,6 +78,7 @@ type layout struct {
 	xseg  int
 	align uint64
 	desc  string
+	secs  []secSpec // executable sections, when the object has a section table
 }
 
 // genLayout produces PT_LOAD segments under linker constraints: sorted by vaddr,
@@ -57,6 +86,58 @@ type layout struct {
 // separate pages ("separate-code") or packed so that neighbours share a file page, optional 2 MiB
 // alignment.
 func genLayout(r *rand.Rand) layout {
+	if r.Intn(5) == 0 {
+		return genDataFirst(r)
+	}
+	l := genPlain(r)
+	if l.typ == elf.ET_DYN && r.Intn(3) == 0 {
+		x := l.phs[l.xseg]
+		l.secs = []secSpec{{".text", x.Vaddr, x.Off, x.Filesz}}
+		l.desc += " sections"
+	}
+	return l
+}
+
+// genDataFirst: a shared object whose linker script puts .data/.bss in front of the code and packs
+// the segments in the file. The read-write segment has little file content and a large .bss; two
+// executable segments (.text and .text.hot) follow right behind its file bytes, so the file range
+// [off, off+memsz) of the data segment runs over theirs. Samples lie in either executable segment;
+// the object has a section table.
+func genDataFirst(r *rand.Rand) layout {
+	l := layout{typ: elf.ET_DYN, align: pg}
+	off, vaddr := uint64(0), uint64(0)
+	add := func(flags uint32, fsz, msz uint64) {
+		l.phs = append(l.phs, elf.Prog64{Type: uint32(elf.PT_LOAD), Flags: flags, Off: off, Vaddr: vaddr, Paddr: vaddr, Filesz: fsz, Memsz: msz, Align: pg})
+		noff := (off + fsz + 15) &^ 15
+		vaddr = ((vaddr + msz + pg - 1) &^ (pg - 1)) + (noff & (pg - 1))
+		off = noff
+	}
+	add(uint32(elf.PF_R), uint64(0x200+r.Intn(0x600))&^7, 0)
+	l.phs[0].Memsz = l.phs[0].Filesz
+	if r.Intn(2) == 0 { // data on a page of its own in the file
+		off = (off + pg - 1) &^ (pg - 1)
+		vaddr = (vaddr + pg - 1) &^ (pg - 1)
+	}
+	dsz := uint64(0x40+r.Intn(0x400)) &^ 7
+	add(uint32(elf.PF_R|elf.PF_W), dsz, dsz+uint64(1+r.Intn(3))*pg+uint64(r.Intn(pg)))
+	t1 := uint64(0x100+r.Intn(0x900)) &^ 7
+	add(uint32(elf.PF_R|elf.PF_X), t1, t1)
+	t2 := uint64(0x100+r.Intn(0x900)) &^ 7
+	add(uint32(elf.PF_R|elf.PF_X), t2, t2)
+	l.xseg = 2 + r.Intn(2)
+	names := []string{".text", ".text.hot"}
+	if r.Intn(2) == 0 {
+		names[0], names[1] = names[1], names[0]
+	}
+	for i, n := range names {
+		x := l.phs[2+i]
+		l.secs = append(l.secs, secSpec{n, x.Vaddr, x.Off, x.Filesz})
+	}
+	l.desc = fmt.Sprintf("%v data-first packed, .bss before code, sections %s/%s, xseg=%d", l.typ, names[0], names[1], l.xseg)
+	return l
+}
+
+func genPlain(r *rand.Rand) layout {
 	l := layout{typ: []elf.Type{elf.ET_DYN, elf.ET_EXEC}[r.Intn(2)], align: pg}
 	if r.Intn(6) == 0 {
 		l.align = 0x200000
@@ -108,6 +189,9 @@ func (l layout) String() string {
 	for i, p := range l.phs {
 		fmt.Fprintf(&sb, "\n  PT_LOAD[%d] flags=%#x off=%#x vaddr=%#x filesz=%#x memsz=%#x", i, p.Flags, p.Off, p.Vaddr, p.Filesz, p.Memsz)
 	}
+	for _, sc := range l.secs {
+		fmt.Fprintf(&sb, "\n  section %s addr=%#x off=%#x size=%#x", sc.name, sc.addr, sc.off, sc.size)
+	}
 	return sb.String()
 }
 
@@ -126,7 +210,7 @@ func runSynth(c *harness.Ctx) harness.Result {
 	r := c.Rng
 	l := genLayout(r)
 	path := filepath.Join(c.Tmp, "syn.so")
-	if err := writeELF(path, l.typ, l.phs); err != nil {
+	if err := writeELF(path, l.typ, l.phs, l.secs...); err != nil {
 		return harness.Result{Verdict: harness.Inconclusive, Detail: err.Error()}
 	}
 	bias := uint64(0)
@@ -266,7 +350,7 @@ func runProtocolA2L(c *harness.Ctx) harness.Result {
 		l = genLayout(r)
 	}
 	path := filepath.Join(c.Tmp, "syn.so")
-	if err := writeELF(path, l.typ, l.phs); err != nil {
+	if err := writeELF(path, l.typ, l.phs, l.secs...); err != nil {
 		return harness.Result{Verdict: harness.Inconclusive, Detail: err.Error()}
 	}
 	tools := filepath.Join(c.Tmp, "tools")
@@ -331,7 +415,7 @@ func runProtocol(c *harness.Ctx) harness.Result {
 		l = genLayout(r)
 	}
 	path := filepath.Join(c.Tmp, "syn.so")
-	if err := writeELF(path, l.typ, l.phs); err != nil {
+	if err := writeELF(path, l.typ, l.phs, l.secs...); err != nil {
 		return harness.Result{Verdict: harness.Inconclusive, Detail: err.Error()}
 	}
 	tools := filepath.Join(c.Tmp, "tools")
@@ -386,7 +470,7 @@ func runNM(c *harness.Ctx) harness.Result {
 	// a one-segment ET_EXEC so that base = 0 and addresses are link-time addresses
 	l := layout{typ: elf.ET_EXEC, phs: []elf.Prog64{{Type: uint32(elf.PT_LOAD), Flags: uint32(elf.PF_R | elf.PF_X), Off: 0, Vaddr: 0x400000, Paddr: 0x400000, Filesz: 0x3000, Memsz: 0x3000, Align: pg}}}
 	path := filepath.Join(c.Tmp, "nm.bin")
-	if err := writeELF(path, l.typ, l.phs); err != nil {
+	if err := writeELF(path, l.typ, l.phs, l.secs...); err != nil {
 		return harness.Result{Verdict: harness.Inconclusive, Detail: err.Error()}
 	}
 	n := r.Intn(8)
